@@ -26,6 +26,10 @@ def main(chk: core.Check, replay):
         sig = f"C11:{b['tag']}:{b.get('fn', b.get('name', ''))}:model={model_sig(b.get('text', ''))}"
         chk.violation(sig, b, f"save/load: {b['tag']} " + str({k: v for k, v in b.items() if k not in ('text', 'saved', 'tag')})[:240])
     chk.sample({"model_text": modelcase.render_text(recs[-1]["blocks"])})
+    # models that do not come from .ode text (Myokit imports: flat multi-branch Piecewise, renamed symbols): saving and
+    # reloading must not change what they compute
+    from .c15 import myokit_corpus
+    myokit_corpus(chk, "C11", n_quick=150, kinds={"save-reload-error", "save-reload-changes-rhs"})
 
 
 if __name__ == "__main__":
